@@ -474,3 +474,17 @@ func (r *Raft) VerifSetElectionTimeout(d time.Duration) {
 	r.confReloadMu.Unlock()
 	asyncNotifyCh(r.followerNotifyCh)
 }
+
+// VerifMatch reports a follower's match index to the leader's commitment, like the
+// replication goroutines do after a successful AppendEntries / InstallSnapshot.
+func (r *Raft) VerifMatch(id ServerID, idx uint64) { r.leaderState.commitment.match(id, idx) }
+
+// VerifCommitNotified reports (and clears) whether commitCh was notified.
+func (r *Raft) VerifCommitNotified() bool {
+	select {
+	case <-r.leaderState.commitCh:
+		return true
+	default:
+		return false
+	}
+}
